@@ -2,6 +2,7 @@
 //! real code. Sub-commands are documented in /verif/DESIGN.md section 4.
 
 mod ast;
+mod dump;
 mod exec;
 mod model;
 mod parse;
@@ -23,6 +24,7 @@ fn main() {
         "replay" => replay::main(&args[2..]),
         "replay1" => replay::main_one(&args[2..]),
         "record" => record::main(&args[2..]),
+        "dump" => dump::main(&args[2..]),
         other => {
             eprintln!("unknown sub-command {other}");
             2
